@@ -1125,6 +1125,301 @@ fn final_truth(w: &World, q: &Query) -> Option<BTreeSet<String>> {
     None
 }
 
+
+// ------------------------------------------------------------------------------------------
+// alias chasing in the stub resolver
+
+#[derive(Serialize, Deserialize, Clone, Debug)]
+struct AliasPlan {
+    sim: SimConfig,
+    /// aliases a0 -> a1 -> ... -> a<len>; a<len> is the end of the chain
+    len: u8,
+    /// the last alias points back at a<loop_to> instead of at the end (a loop)
+    loop_to: Option<u8>,
+    /// what the end of the chain holds: 0 an A record, 1 nothing (NODATA), 2 does not exist
+    end: u8,
+    /// how many hops of the chain the upstream puts into one response (1-3)
+    hops_per_response: u8,
+    /// identical concurrent lookups
+    callers: u8,
+    preserve_intermediates: bool,
+    cache_size: u8,
+    /// a second round of the same lookup (served from the cache or not)
+    again: bool,
+}
+
+pub struct AliasPart;
+
+impl Part for AliasPart {
+    fn name(&self) -> &'static str {
+        "alias"
+    }
+    fn runs(&self, tier: Tier) -> u64 {
+        match tier {
+            Tier::Quick => 4_000,
+            Tier::Thorough => 200_000,
+        }
+    }
+    fn block(&self, _t: Tier) -> u64 {
+        32
+    }
+    fn gen(&self, seed: u64, _tier: Tier) -> Value {
+        let mut r = Rng::new(seed);
+        let mut sim = SimConfig::from_seed(seed);
+        sim.step_budget = 2_000_000;
+        sim.max_sim_ns = 3_600_000_000_000;
+        let len = r.below(14) as u8;
+        let loop_to = if len > 0 && r.chance(1, 3) { Some(r.below(len as u64) as u8) } else { None };
+        serde_json::to_value(AliasPlan { sim, len, loop_to, end: r.below(3) as u8, hops_per_response: 1 + r.below(3) as u8, callers: 1 + r.below(3) as u8, preserve_intermediates: r.chance(1, 2), cache_size: *r.pick(&[0u8, 1, 32]), again: r.chance(1, 2) }).unwrap()
+    }
+    fn run(&self, plan: &Value, trace: bool) -> Report {
+        let mut p: AliasPlan = serde_json::from_value(plan.clone()).expect("plan");
+        p.sim.trace = trace;
+        let sig = mix(p.len as u64 ^ (p.loop_to.map(|l| l as u64 + 1).unwrap_or(0)) << 8 ^ (p.end as u64) << 16 ^ (p.hops_per_response as u64) << 20 ^ (p.callers as u64) << 24 ^ (p.preserve_intermediates as u64) << 28 ^ (p.cache_size as u64) << 32 ^ (p.again as u64) << 40);
+        let nontrivial = p.len > 0;
+        let p2 = p.clone();
+        let out = exec::run(&p.sim, async move { alias_scenario(p2).await });
+        finish(out, sig, nontrivial, "C19.no-termination")
+    }
+    fn shrink(&self, plan: &Value) -> Vec<Value> {
+        let Ok(p) = serde_json::from_value::<AliasPlan>(plan.clone()) else { return vec![] };
+        let mut out = Vec::new();
+        if p.len > 0 {
+            let mut q = p.clone();
+            q.len -= 1;
+            if let Some(l) = q.loop_to {
+                if l >= q.len {
+                    q.loop_to = if q.len > 0 { Some(q.len - 1) } else { None };
+                }
+            }
+            out.push(q);
+        }
+        if p.callers > 1 {
+            let mut q = p.clone();
+            q.callers = 1;
+            out.push(q);
+        }
+        if p.again {
+            let mut q = p.clone();
+            q.again = false;
+            out.push(q);
+        }
+        if p.hops_per_response > 1 {
+            let mut q = p.clone();
+            q.hops_per_response = 1;
+            out.push(q);
+        }
+        if p.sim.policy != hsim::SchedPolicy::Fifo {
+            let mut q = p.clone();
+            q.sim.policy = hsim::SchedPolicy::Fifo;
+            out.push(q);
+        }
+        out.into_iter().map(|q| serde_json::to_value(q).unwrap()).collect()
+    }
+    fn describe(&self) -> Describe {
+        Describe {
+            rule: "plan = (alias chain a0 -> ... -> a<len>, len 0-13, optionally closed into a loop, ending in an address / NODATA / NXDOMAIN; the upstream recursive server puts 1-3 hops into each response; 1-3 identical concurrent lookups, preserve_intermediates, cache size 0/1/32, optional second round); non-trivial = at least one alias; distinct by all of these".into(),
+            real: vec!["hickory_resolver::Resolver / LookupFuture / CachingClient::inner_lookup (alias chasing, DepthTracker)", "ResponseCache", "NameServerPool down to UdpClientStream"],
+            stub: vec!["SimNet sockets", "one scripted upstream server answering alias chains"],
+            assumptions: vec!["success is demanded only for chains that need at most 5 follow-up queries (the limit is 8 nested lookups)"],
+        }
+    }
+}
+
+async fn alias_scenario(p: AliasPlan) {
+    use hickory_resolver::config::{NameServerConfig, ResolverConfig};
+    net::configure(MS / 2, MS / 2);
+    let queries = Rc::new(std::cell::Cell::new(0u64));
+    let alias = |i: u8| n(&format!("a{i}.alias."));
+    let target_of = {
+        let p = p.clone();
+        move |i: u8| -> Option<u8> {
+            if i >= p.len {
+                return None;
+            }
+            if i + 1 == p.len {
+                if let Some(l) = p.loop_to {
+                    return Some(l);
+                }
+            }
+            Some(i + 1)
+        }
+    };
+    let end_ip = Ipv4Addr::new(46, 9, 9, 9);
+    let addr = SocketAddr::new(IpAddr::V4(server_ip(0)), 53);
+    {
+        let queries = queries.clone();
+        let p = p.clone();
+        let target_of = target_of.clone();
+        net::udp_node(addr, move |dg| {
+            let Ok(req) = Message::from_vec(&dg.bytes) else { return vec![] };
+            queries.set(queries.get() + 1);
+            let mut m = Message::response(req.metadata.id, OpCode::Query);
+            m.metadata.recursion_desired = req.metadata.recursion_desired;
+            m.metadata.recursion_available = true;
+            let Some(q) = req.queries.first() else { return vec![] };
+            m.add_query(q.clone());
+            exec::log(&format!("upstream query {} {}", q.name, q.query_type));
+            let idx = q.name.to_ascii().strip_prefix('a').and_then(|r| r.split('.').next().map(|d| d.to_string())).and_then(|d| d.parse::<u8>().ok());
+            let soa = Record::from_rdata(n("alias."), 60, RData::SOA(SOA::new(n("ns.alias."), n("admin.alias."), 1, 60, 60, 60, 60)));
+            match idx {
+                Some(mut i) if i <= p.len && q.query_type == RecordType::A => {
+                    let mut hops = 0;
+                    loop {
+                        match target_of(i) {
+                            Some(t) if hops < p.hops_per_response => {
+                                m.add_answer(Record::from_rdata(n(&format!("a{i}.alias.")), 60, RData::CNAME(CNAME(n(&format!("a{t}.alias."))))));
+                                hops += 1;
+                                i = t;
+                            }
+                            Some(_) => break,
+                            None => {
+                                // the end of the chain
+                                match p.end {
+                                    0 => {
+                                        m.add_answer(Record::from_rdata(n(&format!("a{i}.alias.")), 60, RData::A(A(end_ip))));
+                                    }
+                                    1 => {
+                                        m.add_authority(soa.clone());
+                                    }
+                                    _ => {
+                                        if hops == 0 {
+                                            m.metadata.response_code = ResponseCode::NXDomain;
+                                        }
+                                        m.add_authority(soa.clone());
+                                    }
+                                }
+                                break;
+                            }
+                        }
+                    }
+                }
+                _ => {
+                    m.metadata.response_code = ResponseCode::NXDomain;
+                    m.add_authority(soa);
+                }
+            }
+            match m.to_vec() {
+                Ok(bytes) => vec![UdpOut { delay_ns: 2 * MS, from: dg.dst, to: dg.src, bytes }],
+                Err(_) => vec![],
+            }
+        });
+    }
+    net::set_connect_policy(move |_c, _dst, _nth| ConnectVerdict::Refuse { after_ns: MS });
+
+    let mut cfg = ResolverConfig::from_parts(None, vec![], vec![]);
+    let mut ns = NameServerConfig::udp(IpAddr::V4(server_ip(0)));
+    for c in ns.connections.iter_mut() {
+        c.port = 53;
+    }
+    cfg.add_name_server(ns);
+    let mut builder = hickory_resolver::Resolver::builder_with_config(cfg, SimProvider::new(CLIENT));
+    {
+        let o = builder.options_mut();
+        o.preserve_intermediates = p.preserve_intermediates;
+        o.cache_size = p.cache_size as u64;
+        o.ndots = 0;
+        o.attempts = 1;
+        o.edns0 = false;
+        o.case_randomization = false;
+    }
+    let resolver = match builder.build() {
+        Ok(r) => Rc::new(r),
+        Err(e) => {
+            exec::violate("C19.harness", "alias", format!("resolver: {e}"));
+            return;
+        }
+    };
+    // follow-up queries the chain needs from a0 when every response carries `hops_per_response`
+    let needed: Option<u32> = {
+        let mut i = 0u8;
+        let mut qn = 0u32;
+        let mut seen = BTreeSet::new();
+        loop {
+            if !seen.insert(i) {
+                break None; // loop
+            }
+            qn += 1;
+            let mut hops = 0;
+            let mut ended = false;
+            while hops < p.hops_per_response {
+                match target_of(i) {
+                    Some(t) => {
+                        i = t;
+                        hops += 1;
+                    }
+                    None => {
+                        ended = true;
+                        break;
+                    }
+                }
+            }
+            if ended || target_of(i).is_none() && hops < p.hops_per_response {
+                break Some(qn);
+            }
+            if qn > 40 {
+                break None;
+            }
+        }
+    };
+    let rounds = if p.again { 2 } else { 1 };
+    for round in 0..rounds {
+        let before = queries.get();
+        let mut joins = Vec::new();
+        for c in 0..p.callers {
+            let resolver = resolver.clone();
+            joins.push(exec::spawn(&format!("caller{c}"), async move { resolver.lookup(n("a0.alias."), RecordType::A).await }));
+        }
+        let mut results = Vec::new();
+        for j in joins {
+            match exec::timeout(Duration::from_secs(600), j).await {
+                Ok(r) => results.push(r),
+                Err(()) => {
+                    exec::violate("C19.no-termination", "alias-pending", format!("a lookup through a chain of {} aliases (loop {:?}) was still pending after 10 simulated minutes", p.len, p.loop_to));
+                    return;
+                }
+            }
+        }
+        let spent = queries.get() - before;
+        exec::count(&format!("probe.alias_queries.le{}", bucket(spent)));
+        exec::log(&format!("round {round}: {spent} upstream queries; results {:?}", results.iter().map(|r| r.as_ref().map(|l| l.answers().len()).map_err(|e| e.to_string())).collect::<Vec<_>>()));
+        // bounded work: at most 8 nested lookups per caller (and identical callers share)
+        if spent > 9 * p.callers as u64 {
+            if exec::violate("C19.alias-bound", "", format!("{spent} upstream queries for {} caller(s) chasing a chain of {} aliases (loop {:?}, {} hops per response)", p.callers, p.len, p.loop_to, p.hops_per_response)) {
+                return;
+            }
+        }
+        for r in &results {
+            match r {
+                Ok(l) => {
+                    exec::count("probe.alias_ok");
+                    let ips: Vec<Ipv4Addr> = l
+                        .answers()
+                        .iter()
+                        .filter_map(|r| match &r.data {
+                            RData::A(A(ip)) => Some(*ip),
+                            _ => None,
+                        })
+                        .collect();
+                    if p.end != 0 || p.loop_to.is_some() || ips.iter().any(|ip| *ip != end_ip) {
+                        if exec::violate("C19.alias-wrong-answer", "", format!("lookup returned {ips:?} for a chain of {} aliases ending in {} (loop {:?})", p.len, ["an address", "NODATA", "NXDOMAIN"][p.end as usize % 3], p.loop_to)) {
+                            return;
+                        }
+                    }
+                }
+                Err(e) => {
+                    exec::count("probe.alias_err");
+                    if p.end == 0 && p.loop_to.is_none() && needed.map(|q| q <= 5).unwrap_or(false) {
+                        if exec::violate("C19.alias-unavailable", "", format!("{e} for a chain of {} aliases ({} hops per response, {:?} queries needed) that ends in an address", p.len, p.hops_per_response, needed)) {
+                            return;
+                        }
+                    }
+                }
+            }
+        }
+    }
+}
+
 pub fn def() -> CheckDef {
-    CheckDef { id: "C19", level: "exploration", parts: vec![Box::new(RecursorPart)] }
+    CheckDef { id: "C19", level: "exploration", parts: vec![Box::new(RecursorPart), Box::new(AliasPart)] }
 }
